@@ -289,6 +289,43 @@ func (il *inliner) inlineText(call *ast.CallExpr, fd *ast.FuncDecl, hp *packages
 		}
 		return true
 	})
+	// a helper of ANOTHER package (code moved into a types-package function or method): its package-level names are
+	// qualified with the caller's import of that package; a body that touches anything unexported there stays a call
+	if hp != cp {
+		imp := ""
+		ast.Inspect(fd.Body, func(n ast.Node) bool {
+			x, ok := n.(*ast.Ident)
+			if !ok || !pkgOK {
+				return pkgOK
+			}
+			o := hp.TypesInfo.Uses[x]
+			if o == nil || o.Pkg() != hp.Types {
+				return true
+			}
+			if _, isPkg := o.(*types.PkgName); isPkg {
+				return true
+			}
+			switch {
+			case o.Parent() == hp.Types.Scope():
+				if !o.Exported() {
+					pkgOK = false
+					return false
+				}
+				if _, done := renamePkg[x]; done {
+					return true
+				}
+				if imp == "" {
+					imp = il.importName(hp.Types.Path(), hp.Types.Name(), cfile)
+				}
+				renamePkg[x] = x.Name
+				x.Name = imp + "." + x.Name
+			case o.Parent() == nil && !o.Exported(): // unexported field or method
+				pkgOK = false
+				return false
+			}
+			return true
+		})
+	}
 	bodyText := il.src(fd.Body)
 	// error results that are non-nil by construction (sentinels, Wrapf on a sentinel, errors.New, fmt.Errorf), keyed by
 	// their printed form under the renaming: the pushed caller check is not repeated for them
@@ -353,6 +390,15 @@ func (il *inliner) inlineText(call *ast.CallExpr, fd *ast.FuncDecl, hp *packages
 	for _, s := range restore {
 		s.id.Name = s.name
 	}
+	if hp != cp {
+		// unexported named types of the helper's package in its signature cannot be spelled in the caller
+		unexp := regexp.MustCompile(`\b` + regexp.QuoteMeta(il.importName(hp.Types.Path(), hp.Types.Name(), cfile)) + `\.[a-z_]`)
+		for _, t := range append(append([]string{}, paramTypes...), resTypes...) {
+			if unexp.MatchString(t) {
+				pkgOK = false
+			}
+		}
+	}
 	if !pkgOK || il.missingImport {
 		return "", nil, false
 	}
@@ -365,6 +411,20 @@ func (il *inliner) inlineText(call *ast.CallExpr, fd *ast.FuncDecl, hp *packages
 	}
 	body := pf.Decls[0].(*ast.FuncDecl).Body
 	okRet := true
+	// expression helper: the body is one `return e` whose type is exactly the declared result type. The call is replaced
+	// by (e) over the bound parameters, so that a condition stays a condition (branch form) at the call site.
+	exprResult := ""
+	if il.errCont == nil && il.flagCont == nil && !il.tailCall && len(resNames) == 1 && !named && len(body.List) == 1 && len(fd.Body.List) == 1 {
+		if rs, ok := body.List[0].(*ast.ReturnStmt); ok && len(rs.Results) == 1 {
+			if ors, ok := fd.Body.List[0].(*ast.ReturnStmt); ok && len(ors.Results) == 1 {
+				if t := hp.TypesInfo.TypeOf(ors.Results[0]); t != nil && types.Identical(t, sig.Results().At(0).Type()) {
+					var buf bytes.Buffer
+					printer.Fprint(&buf, fset, rs.Results[0])
+					exprResult = "(" + buf.String() + ")"
+				}
+			}
+		}
+	}
 	var rewrite func(list []ast.Stmt) []ast.Stmt
 	var rewriteStmt func(s ast.Stmt) ast.Stmt
 	mk := func(src string) ast.Stmt {
@@ -550,7 +610,7 @@ func (il *inliner) inlineText(call *ast.CallExpr, fd *ast.FuncDecl, hp *packages
 	}
 	var sb strings.Builder
 	for i, t := range resTypes {
-		if il.tailCall && !named {
+		if (il.tailCall && !named) || exprResult != "" {
 			break
 		}
 		fmt.Fprintf(&sb, "var %s %s\n", resNames[i], t)
@@ -564,6 +624,12 @@ func (il *inliner) inlineText(call *ast.CallExpr, fd *ast.FuncDecl, hp *packages
 			name += suf
 		}
 		fmt.Fprintf(&sb, "var %s %s = %s\n_ = %s\n", name, paramTypes[i], args[i], name)
+	}
+	if exprResult != "" {
+		if il.missingImport {
+			return "", nil, false
+		}
+		return sb.String(), []string{exprResult}, true
 	}
 	if il.tailCall {
 		if named {
@@ -614,6 +680,10 @@ func (w *World) BuildNormalForm() map[string][]byte {
 		add := func(n ast.Node, text string) {
 			il.edits[fname] = append(il.edits[fname], textEdit{off(n.Pos()), off(n.End()), text})
 		}
+		if sub := il.substExprHelpers(file, p); len(sub) > 0 {
+			il.edits[fname] = sub // expression helpers first; the other rewrites of this file follow in the next round
+			continue
+		}
 		for _, d := range file.Decls {
 			fd, ok := d.(*ast.FuncDecl)
 			if !ok || fd.Body == nil {
@@ -624,10 +694,18 @@ func (w *World) BuildNormalForm() map[string][]byte {
 			if fobj != nil {
 				sig = fobj.Type().(*types.Signature)
 			}
+			isExprHelper := false
+			if len(fd.Body.List) == 1 && fobj != nil {
+				if _, isRet := fd.Body.List[0].(*ast.ReturnStmt); isRet {
+					if hd, _, _ := il.helperDecl(fobj); hd != nil {
+						isExprHelper = true
+					}
+				}
+			}
 			tryInline := func(ce *ast.CallExpr) (string, []string, bool) {
 				callee := calleeObj(p, ce)
 				hd, hp, hf := il.helperDecl(callee)
-				if hd == nil || callee == fobj || (callee.Exported() && hp != p) {
+				if hd == nil || callee == fobj {
 					return "", nil, false
 				}
 				txt, res, ok := il.inlineText(ce, hd, hp, hf, p, file)
@@ -665,6 +743,9 @@ func (w *World) BuildNormalForm() map[string][]byte {
 						}
 					}
 				case *ast.ReturnStmt:
+					if isExprHelper {
+						return // a new one-expression helper is substituted into its callers as it stands
+					}
 					if len(x.Results) == 1 {
 						if ce, ok := x.Results[0].(*ast.CallExpr); ok {
 							if sig != nil && sameResults(sig, calleeObj(p, ce)) {
@@ -997,7 +1078,9 @@ func (w *World) BuildNormalForm() map[string][]byte {
 						for _, re := range roots {
 							e := ast.Unparen(re)
 							if u, ok := e.(*ast.UnaryExpr); ok && u.Op == token.NOT {
-								e = ast.Unparen(u.X)
+								if _, isRet := s.(*ast.ReturnStmt); !isRet { // `return !helper()` is hoisted: h := helper(); return !h
+									e = ast.Unparen(u.X)
+								}
 							}
 							if ce, ok := e.(*ast.CallExpr); ok {
 								if hd, _, _ := il.helperDecl(calleeObj(p, ce)); hd != nil {
@@ -1660,6 +1743,7 @@ func findHoist(p *packages.Package, roots []ast.Expr, want func(*ast.CallExpr) b
 				}
 				return
 			}
+			wanted := want(x)
 			switch f := x.Fun.(type) {
 			case *ast.SelectorExpr:
 				walk(f.X)
@@ -1671,11 +1755,16 @@ func findHoist(p *packages.Package, roots []ast.Expr, want func(*ast.CallExpr) b
 			for _, a := range x.Args {
 				walk(a)
 			}
-			if found != nil || impure {
+			if found != nil {
 				return
 			}
-			if want(x) {
+			if wanted {
+				// the operands of the hoisted call move with it: effects among them do not matter (impure was false on entry)
+				impure = false
 				found = x
+				return
+			}
+			if impure {
 				return
 			}
 			if id, ok := x.Fun.(*ast.Ident); ok {
@@ -1767,3 +1856,220 @@ func isFlagCheckOf(p *packages.Package, s ast.Stmt, flag types.Object) (*ast.IfS
 }
 
 var inlineSerialBase int
+
+// substExprHelpers: in-place substitution of EXPRESSION helpers - new helpers whose body is one `return e` of exactly
+// the declared result type - at call sites in ANY position (also under && / ||, where nothing can be hoisted): the call
+// becomes (e) with every parameter replaced by its argument. Exact when the arguments are free of effects (identifiers,
+// field selections) and of exactly the parameter types; one argument with effects is allowed when e uses it exactly once
+// and unconditionally (no && / || in e), everything else being pure, so that it is still evaluated once, at the same
+// point. A file that has such sites gets only these edits in this round; the other rewrites follow in the next one.
+func (il *inliner) substExprHelpers(file *ast.File, p *packages.Package) []textEdit {
+	w := il.w
+	off := func(pos token.Pos) int { return w.Fset.Position(pos).Offset }
+	var edits []textEdit
+	var simple func(e ast.Expr) bool
+	simple = func(e ast.Expr) bool {
+		switch x := e.(type) {
+		case *ast.Ident:
+			if _, isVar := p.TypesInfo.Uses[x].(*types.Var); isVar {
+				return true
+			}
+			return false
+		case *ast.ParenExpr:
+			return simple(x.X)
+		case *ast.SelectorExpr:
+			if sel := p.TypesInfo.Selections[x]; sel != nil && sel.Kind() == types.FieldVal && !sel.Indirect() {
+				return simple(x.X)
+			}
+			return false
+		}
+		return false
+	}
+	var done []*ast.CallExpr
+	inside := func(n ast.Node) bool {
+		for _, d := range done {
+			if d.Pos() <= n.Pos() && n.End() <= d.End() {
+				return true
+			}
+		}
+		return false
+	}
+	for _, d := range file.Decls {
+		cfd, ok := d.(*ast.FuncDecl)
+		if !ok || cfd.Body == nil {
+			continue
+		}
+		cobj, _ := p.TypesInfo.Defs[cfd.Name].(*types.Func)
+		ast.Inspect(cfd.Body, func(n ast.Node) bool {
+			ce, ok := n.(*ast.CallExpr)
+			if !ok || inside(ce) {
+				return true
+			}
+			callee := calleeObj(p, ce)
+			if callee == nil || callee == cobj {
+				return true
+			}
+			fd, hp, hfile := il.helperDecl(callee)
+			if fd == nil || len(fd.Body.List) != 1 || fd.Type.Results == nil || len(fd.Type.Results.List) != 1 || len(fd.Type.Results.List[0].Names) > 0 {
+				return true
+			}
+			_ = hfile
+			rs, ok := fd.Body.List[0].(*ast.ReturnStmt)
+			if !ok || len(rs.Results) != 1 {
+				return true
+			}
+			sig := callee.Type().(*types.Signature)
+			if sig.Results().Len() != 1 {
+				return true
+			}
+			if t := hp.TypesInfo.TypeOf(rs.Results[0]); t == nil || !types.Identical(t, sig.Results().At(0).Type()) {
+				return true
+			}
+			// parameter objects -> argument text
+			argOf := map[types.Object]string{}
+			impureParam := types.Object(nil)
+			bind := func(po types.Object, arg ast.Expr, pt types.Type, text string) bool {
+				at := p.TypesInfo.TypeOf(arg)
+				if at == nil || !types.Identical(at, pt) {
+					return false
+				}
+				if !simple(arg) {
+					if impureParam != nil {
+						return false
+					}
+					if _, isCall := ast.Unparen(arg).(*ast.CallExpr); !isCall {
+						return false
+					}
+					impureParam = po
+				}
+				argOf[po] = "(" + text + ")"
+				return true
+			}
+			if fd.Recv != nil {
+				se, ok := ce.Fun.(*ast.SelectorExpr)
+				if !ok || len(fd.Recv.List) != 1 {
+					return true
+				}
+				if sel := p.TypesInfo.Selections[se]; sel == nil || len(sel.Index()) != 1 {
+					return true
+				}
+				if len(fd.Recv.List[0].Names) == 1 && fd.Recv.List[0].Names[0].Name != "_" {
+					ro := hp.TypesInfo.Defs[fd.Recv.List[0].Names[0]]
+					rt := p.TypesInfo.TypeOf(se.X)
+					text := il.src(se.X)
+					_, wantPtr := sig.Recv().Type().(*types.Pointer)
+					_, havePtr := rt.(*types.Pointer)
+					switch {
+					case wantPtr && !havePtr:
+						return true // &x on a copy-free path: leave to the statement-level inliner
+					case !wantPtr && havePtr:
+						return true
+					}
+					if !bind(ro, se.X, sig.Recv().Type(), text) {
+						return true
+					}
+				} else if !simple(se.X) {
+					return true
+				}
+			}
+			i := 0
+			for _, fl := range fd.Type.Params.List {
+				if len(fl.Names) == 0 {
+					return true
+				}
+				for _, nm := range fl.Names {
+					if i >= len(ce.Args) || ce.Ellipsis.IsValid() {
+						return true
+					}
+					if nm.Name == "_" {
+						if !simple(ce.Args[i]) {
+							return true
+						}
+					} else if !bind(hp.TypesInfo.Defs[nm], ce.Args[i], sig.Params().At(i).Type(), il.src(ce.Args[i])) {
+						return true
+					}
+					i++
+				}
+			}
+			if i != len(ce.Args) {
+				return true
+			}
+			// the expression: no function literals, no locals; uses of the impure parameter: exactly one, unconditional
+			okExpr := true
+			uses := 0
+			type saved struct {
+				id   *ast.Ident
+				name string
+			}
+			var restore []saved
+			imp := ""
+			ast.Inspect(rs.Results[0], func(m ast.Node) bool {
+				switch x := m.(type) {
+				case *ast.FuncLit:
+					okExpr = false
+				case *ast.BinaryExpr:
+					if (x.Op == token.LAND || x.Op == token.LOR) && impureParam != nil {
+						okExpr = false
+					}
+				case *ast.Ident:
+					o := hp.TypesInfo.Uses[x]
+					if o == nil {
+						return true
+					}
+					if txt, isParam := argOf[o]; isParam {
+						if o == impureParam {
+							uses++
+						}
+						restore = append(restore, saved{x, x.Name})
+						x.Name = txt
+						return true
+					}
+					if pn, isPkg := o.(*types.PkgName); isPkg {
+						want := il.importName(pn.Imported().Path(), pn.Imported().Name(), file)
+						if want != x.Name {
+							restore = append(restore, saved{x, x.Name})
+							x.Name = want
+						}
+						return true
+					}
+					if v, isVar := o.(*types.Var); isVar && !v.IsField() && v.Parent() != nil && v.Parent() != hp.Types.Scope() && v.Parent() != types.Universe {
+						okExpr = false // a parameter that could not be bound (blank receiver …) or a local
+						return true
+					}
+					if hp != p && o.Pkg() == hp.Types {
+						switch {
+						case o.Parent() == hp.Types.Scope():
+							if !o.Exported() {
+								okExpr = false
+								return true
+							}
+							if imp == "" {
+								imp = il.importName(hp.Types.Path(), hp.Types.Name(), file)
+							}
+							restore = append(restore, saved{x, x.Name})
+							x.Name = imp + "." + x.Name
+						case o.Parent() == nil && !o.Exported():
+							okExpr = false
+						}
+					}
+				}
+				return okExpr
+			})
+			text := ""
+			if okExpr && (impureParam == nil || uses == 1) {
+				text = "(" + il.src(rs.Results[0]) + ")"
+			}
+			for _, s := range restore {
+				s.id.Name = s.name
+			}
+			if text == "" {
+				return true
+			}
+			edits = append(edits, textEdit{off(ce.Pos()), off(ce.End()), text})
+			done = append(done, ce)
+			il.inlined[callee]++
+			return false
+		})
+	}
+	return edits
+}
